@@ -19,7 +19,7 @@ CHECKS = {
  "C05": ("non-linear AxCut programs from three sources (pipeline, direct generator gen_axcut, programs shrunk from directly generated Core programs); named machine vs positional/linear machine on the linearized program, plus an independent static checker of the ordered linear discipline over every path",
          "trusts the AxCut machines and the checker's reading of what the code generators assume (DESIGN C05)",
          "property-based differential testing + independent type checker for the linear discipline"),
- "C06": ("linearized AxCut programs from three generators (pipeline output of generated Fun programs; a stateful generator of linear AxCut programs with environments up to 24 variables kept in the spill area by a wide mode, objects with up to 8 fields, all operators/comparisons, 64-bit literals, arbitrary substitutions; directly generated Core programs taken through focusing, shrinking and linearization), plus a native cross-check of the emulator on a sample; the positional AxCut machine must agree with the emulation of the printed x86-64 text on the sequence of print calls and the returned value",
+ "C06": ("linearized AxCut programs from three generators (pipeline output of generated Fun programs; a stateful generator of linear AxCut programs with environments up to 24 variables kept in the spill area by a wide mode, objects with up to 8 fields, all operators/comparisons, 64-bit literals, arbitrary substitutions; directly generated Core programs taken through focusing, shrinking and linearization), plus an exhaustive operator/comparison placement matrix around the register/spill boundary and a native cross-check of the emulator on a sample; the positional AxCut machine must agree with the emulation of the printed x86-64 text on the sequence of print calls and the returned value",
          "trusts the x86-64 emulator's reading of the printed instruction subset (cross-checked against native execution by C01) and the AxCut machine",
          "property-based differential testing: AxCut machine vs emulator of the emitted assembly text (stateful generator of linear programs)"),
  "C07": ("as C06 for AArch64 (register-file boundary at 13 variables, MOVZ/MOVN/MOVK literal synthesis, SP alignment at every stack access)",
